@@ -1,5 +1,6 @@
 from pyvc.contracts import contract
-from .common import type_options, type_bads_state
+from .function_logger import wf_at
+from .common import type_options, type_bads_state, inv_bads
 
 B = "pybads.bads.bads.BADS"
 
@@ -15,9 +16,22 @@ LETS = dict(sc="self.optim_state['search_count']", ss="self.search_success", fc=
             nfs="self.options['noise_final_samples']", nY="count_true(self.function_logger.X_flag)")
 
 
+def c10(c, extra=()):
+    """C10: a failing target call surfaces immediately: no handler on the path, no further call, honest count."""
+    c.check_raises = True
+    c.bools("ghost.target_raised")
+    c.req("no_pending_failure", "not truthy(ghost.target_raised)")
+    c.ens("target_failure_not_swallowed", "not truthy(ghost.target_raised)", top=True, props=["C10"])
+    counted = "fc - old(fc) <= ghost.n_calls - old(ghost.n_calls) and ghost.n_calls - old(ghost.n_calls) <= fc - old(fc) + 1"
+    for e in ("TargetError", "ValueError", "AssertionError") + tuple(extra):
+        c.may_raise(e, ensures={"counted": counted})
+    c.exc_ens("only_valid_calls_counted", counted, top=True, props=["C10"])
+
+
 def common(c):
     type_options(c)
     type_bads_state(c)
+    inv_bads(c)
     c.arr("self.function_logger.X_flag", 1, [None], "bool")
     c.arr("self.function_logger.Y", 2, [None, 1])
     c.ints("ghost.n_calls", "ghost.fc_round", "ghost.fc_init", "ghost.fc_tail0")
@@ -54,6 +68,7 @@ def _(c):
     c.ens("mesh_untouched", "msi == old(msi) and ssi == old(ssi) and self.optim_state['mesh_size'] == old(self.optim_state['mesh_size'])",
           top=True, props=["C13"])
     c.ens("options_kept", "NT == old(NT) and B_ == old(B_) and MI == old(MI)")
+    c10(c)
 
 
 @contract(B + ".optimize", serves=["C03", "C13"])
@@ -75,6 +90,8 @@ def _(c):
         "budget": "fc <= ite(B_ >= ghost.fc_init, B_, ghost.fc_init) and fc >= ghost.fc_init",
         "iter_is_pi": "implies(loop_iter > 0, self.optim_state['iter'] == poll_iteration) and poll_iteration <= ite(MI - 1 >= 0, MI - 1, 0)",
         "calls_counted": "ghost.n_calls == fc",
+        "no_failure": "not truthy(ghost.target_raised)",
+        "logger_wf": wf_at("self.function_logger"),
         "options_kept": "NT == ghost.NT0 and MI == ghost.MI0 and B_ == ghost.B0 and cap == old(cap) and nfs == ghost.nfs0"
                         " and self.options['tol_fun'] == old(self.options['tol_fun'])",
         # C13
@@ -93,6 +110,8 @@ def _(c):
     c.loop(1, invariants={
         "tail_count": "fc == ghost.fc_tail0 + i_sample and i_sample >= 0",
         "calls_counted": "ghost.n_calls == fc",
+        "no_failure": "not truthy(ghost.target_raised)",
+        "logger_wf": wf_at("self.function_logger"),
         "nfs_kept": "nfs == ghost.nfs1 and B_ == ghost.B1",
     }, variant=["nfs - i_sample"], ghost={"fc_tail0": "fc", "nfs1": "nfs", "B1": "B_"})
     c.strings(MSG_FUN=MSG_FUN, MSG_ITER=MSG_ITER, MSG_MESH=MSG_MESH, MSG_TOLFUN=MSG_TOLFUN)
@@ -110,6 +129,10 @@ def _(c):
           top=True, props=["C03", "C13"])
     # ---- C13 -----------------------------------------------------------------------------------------------------
     c.ens("mesh_le_one", "msi <= 0 and ssi <= msi", top=True, props=["C13"])
+    # C01: the returned solution lies in the original hard box
+    c.ens("returned_x_in_hard_box", "forall(self.D, lambda j: self.var_transf.orig_lb[0][j] <= self.x[j] and self.x[j] <= self.var_transf.orig_ub[0][j])",
+          top=True, props=["C01"])
+    c10(c)
 
 
 @contract(B + "._init_optimization_", serves=["C03", "C05"])
@@ -129,13 +152,17 @@ def _(c):
     c.ens("no_reserve_when_deterministic", "implies(lvl <= 0, nfs == old(nfs) and B_ == old(B_))", top=True, props=["C03"])
     c.ens("stobads_off_kept", "implies(not truthy(old(self.options['stobads'])), not truthy(self.options['stobads']))")
     c.result = {"tuple": [{}, {}, {}, {}]}
+    c10(c)
 
 
 @contract(B + "._init_mesh_", serves=["C03", "C05"])
 def _(c):
     common(c)
     c.loop(0, invariants={"count_grows": "fc >= old(fc)",
-                          "calls_counted": "ghost.n_calls - old(ghost.n_calls) == fc - old(fc)"})
+                          "calls_counted": "ghost.n_calls - old(ghost.n_calls) == fc - old(fc)",
+                          "no_failure": "not truthy(ghost.target_raised)",
+                          "logger_wf": wf_at("self.function_logger")})
+    c10(c)
     c.ens("count_grows", "fc >= old(fc)", props=["C03"])
     c.ens("calls_counted", "ghost.n_calls - old(ghost.n_calls) == fc - old(fc)", top=True, props=["C03"])
     c.ens("controller_untouched", "sc == old(sc) and ss == old(ss) and NT == old(NT) and MI == old(MI) and cap == old(cap)"
